@@ -1,8 +1,8 @@
-(* Theorems about K16 = the skeleton of CodecCodeBuilder.add_decode_method / add_encode_method as translated
+(* Theorems about K40 = the skeleton of CodecCodeBuilder.add_decode_method / add_encode_method as translated
    from /repo on this run. *)
 From Coq Require Import List Bool.
 From Verif Require Import CodecWrap.
-From VerifGen Require Import K16.
+From VerifGen Require Import K40.
 Import ListNotations.
 
 (* Decoder objects: the callable installed as `decode` computes  unpack(pre_decoder(data))  when a pre-decoder
